@@ -1,0 +1,16 @@
+//go:build verif
+
+package unicodedata
+
+import "unicode"
+
+// Exports of the unexported class tables, so that runtime monitors can scan
+// the tables the lookups bisect. Only built under the "verif" tag.
+
+func VerifLineBreaks() []*unicode.RangeTable { return lineBreaks[:] }
+
+func VerifGraphemeBreaks() []*unicode.RangeTable { return graphemeBreaks[:] }
+
+func VerifWordBreaks() []*unicode.RangeTable { return wordBreaks[:] }
+
+func VerifCombiningClasses() []*unicode.RangeTable { return combiningClasses[:] }
